@@ -225,6 +225,118 @@ impl JubLayout {
     }
 }
 
+/// Selector indices of the four EC gates and the condition column of a foreign suite.
+pub struct ForeignLayout {
+    /// selectors of on_curve, slope, tangent, lambda_squared
+    sels: [usize; 4],
+    cond_col: usize,
+}
+
+impl ForeignLayout {
+    pub fn new<S: Suite>() -> Self {
+        let cs = S::raw_cs();
+        let names = [
+            "Foreign-field EC is_on_curve",
+            "Foreign-field EC lambda slope",
+            "Foreign-field EC assert_tangent",
+            "Foreign-field EC assert_lambda_squared",
+        ];
+        let mut sels = [0usize; 4];
+        for (i, n) in names.iter().enumerate() {
+            let (_, s) = gates::ecc_cols_and_selectors(&cs, &[n]);
+            assert_eq!(s.len(), 1, "gate {n} must have exactly one selector");
+            sels[i] = s[0];
+        }
+        // the condition column: queried at rotation +1 by the tangent gate, not a limb/quotient column
+        let cond_col = gates::cond_col(&cs, names[2]);
+        ForeignLayout { sels, cond_col }
+    }
+
+    /// The activations of the EC gates found in the table, in row order.
+    pub fn acts<S: Suite>(&self, mp: &MockProver<F>, fl: &circ::FLayout) -> String {
+        use midnight_proofs::dev::CellValue;
+        let adv = mp.advice();
+        let sel = mp.selectors();
+        let m = S::base_modulus();
+        let lb = S::log2_base();
+        let n = adv[0].len();
+        let cell = |c: usize, r: usize| -> BigUint {
+            match &adv[c][r] {
+                CellValue::Assigned(v) => mzkh::fe_big(v),
+                _ => BigUint::from(0u8),
+            }
+        };
+        let val = |cols: &Vec<usize>, r: usize| -> String {
+            let mut acc = BigUint::from(1u8);
+            for (i, c) in cols.iter().enumerate() {
+                acc += cell(*c, r) << (lb as usize * i);
+            }
+            hex(&(acc % &m))
+        };
+        let native_p = mzkh::fe_big(&(-<F as ff::Field>::ONE)) + 1u8;
+        let cond = |r: usize| -> String {
+            let v = cell(self.cond_col, r);
+            if v == &native_p - 1u8 {
+                "-1".to_string()
+            } else {
+                v.to_string()
+            }
+        };
+        let mut out = vec![];
+        for r in 1..n.saturating_sub(1) {
+            if sel[self.sels[0]][r] {
+                out.push(format!("oc:{}:{}:{}", cond(r + 1), val(&fl.x_cols, r), val(&fl.x_cols, r + 1)));
+            }
+            if sel[self.sels[1]][r] {
+                out.push(format!(
+                    "sl:{}:{}:{}:{}:{}:{}",
+                    cond(r + 1),
+                    val(&fl.x_cols, r - 1),
+                    val(&fl.x_cols, r),
+                    val(&fl.z_cols, r - 1),
+                    val(&fl.z_cols, r),
+                    val(&fl.x_cols, r + 1)
+                ));
+            }
+            if sel[self.sels[2]][r] {
+                out.push(format!("tg:{}:{}:{}:{}", cond(r + 1), val(&fl.x_cols, r), val(&fl.z_cols, r), val(&fl.x_cols, r + 1)));
+            }
+            if sel[self.sels[3]][r] {
+                out.push(format!(
+                    "ls:{}:{}:{}:{}:{}",
+                    cond(r + 1),
+                    val(&fl.x_cols, r - 1),
+                    val(&fl.x_cols, r),
+                    val(&fl.z_cols, r),
+                    val(&fl.x_cols, r + 1)
+                ));
+            }
+        }
+        if out.is_empty() {
+            "-".into()
+        } else {
+            out.join(";")
+        }
+    }
+
+    /// Number of activations of each EC gate.
+    pub fn shape(&self, mp: &MockProver<F>) -> String {
+        let sel = mp.selectors();
+        let cnt = |i: usize| sel[self.sels[i]].iter().filter(|b| **b).count();
+        format!("oc={} sl={} tg={} ls={}", cnt(0), cnt(1), cnt(2), cnt(3))
+    }
+}
+
+fn foreign_layout<S: Suite + 'static>() -> &'static ForeignLayout {
+    static SECP: std::sync::OnceLock<ForeignLayout> = std::sync::OnceLock::new();
+    static BLS: std::sync::OnceLock<ForeignLayout> = std::sync::OnceLock::new();
+    if S::NAME == "secp" {
+        SECP.get_or_init(ForeignLayout::new::<S>)
+    } else {
+        BLS.get_or_init(ForeignLayout::new::<S>)
+    }
+}
+
 fn render_pt(p: &Pt) -> String {
     match p.id {
         None => format!("{} {}", hex(&p.x), hex(&p.y)),
@@ -253,7 +365,7 @@ fn known_identity_large_const<S: Suite>(spec: &Spec) -> bool {
 }
 
 /// One case: correspondence line + oracles. Returns the run (for the tamper sweep).
-fn do_case<S: Suite>(ctx: &mut Out, class: &str, spec: &Spec) {
+fn do_case<S: Suite + 'static>(ctx: &mut Out, class: &str, spec: &Spec) {
     let lay: Option<&JubLayout> = if S::WEIER { None } else { Some(layout()) };
     let line = op_line::<S>(spec);
     let (r, k) = run_k::<S>(spec, no_faults, None);
@@ -291,6 +403,28 @@ fn do_case<S: Suite>(ctx: &mut Out, class: &str, spec: &Spec) {
         }
     };
     ctx.case(&kind, true, &line, &answer);
+    // foreign chips: the activations of the EC custom gates (values for the deterministic
+    // instructions, counts for those that draw a random blinding point)
+    if S::WEIER && r.verdict == Ok(true) {
+        if let (Some(mp), Some(fl)) = (r.prover.as_ref(), r.outcome.flayout.as_ref()) {
+            let lay = foreign_layout::<S>();
+            let body = line.splitn(2, ' ').nth(1).unwrap_or("");
+            match &spec.op {
+                Op::Assign | Op::AssignFixed | Op::Coords | Op::Add | Op::Double | Op::Neg | Op::Select(_) => {
+                    ctx.case(&format!("{}:acts:{}", S::NAME, spec.op.name()), true, &format!("{} acts {}", S::NAME, body), &lay.acts::<S>(mp, fl));
+                }
+                Op::MulConst | Op::Msm | Op::MsmBits(_) | Op::MsmBounded(_) | Op::SubgroupCheck => {
+                    let extra = match &spec.op {
+                        Op::MsmBits(l) => format!("lens={} ", mzkh::join(l)),
+                        Op::MsmBounded(l) => format!("bounds={} ", mzkh::join(l)),
+                        _ => String::new(),
+                    };
+                    ctx.case(&format!("{}:shape:{}", S::NAME, spec.op.name()), true, &format!("{} shape {}{}", S::NAME, extra, body), &lay.shape(mp));
+                }
+                _ => {}
+            }
+        }
+    }
     // oracle: honest witness accepted, result = group operation
     let sat_expected = !documented_unsat::<S>(spec);
     match (&r.verdict, sat_expected) {
